@@ -536,10 +536,11 @@ func (wg *WeightedAuthorizationModelGraph) calculateNodeWeightWithMixedStrategy(
 		return fmt.Errorf("%w: %s node does not have any terminal type to reach to", ErrInvalidModel, node.uniqueLabel)
 	}
 
-	for idx, edge := range edges {
-		for key, value := range edge.weights {
+	operands := groupEdgesByOperand(edges)
+	for idx, operand := range operands {
+		for key, value := range operand {
 			if _, ok := weights[key]; !ok {
-				if idx != len(edges)-1 {
+				if idx != len(operands)-1 {
 					// This is the A edge.  We take the max weight of all key
 					weights[key] = value
 				} // otherwise, B edge requires weight to be present in A. Otherwise, we will ignore.
@@ -566,11 +567,11 @@ func (wg *WeightedAuthorizationModelGraph) calculateNodeWeightWithEnforceTypeStr
 		return fmt.Errorf("%w: %s node does not have any terminal type to reach to", ErrInvalidModel, node.uniqueLabel)
 	}
 
-	for _, edge := range edges {
+	for idx, operand := range groupEdgesByOperand(edges) {
 		// for but not ensure that the first edge is the left edge
 		// the first time, take the weights of the edge
-		if len(weights) == 0 {
-			for key, value := range edge.weights {
+		if idx == 0 {
+			for key, value := range operand {
 				weights[key] = value
 			}
 			continue
@@ -578,7 +579,7 @@ func (wg *WeightedAuthorizationModelGraph) calculateNodeWeightWithEnforceTypeStr
 
 		// for AndOperation, remove the key if it is not in the edge, not all edges return the same type
 		for key := range weights {
-			if value, ok := edge.weights[key]; !ok {
+			if value, ok := operand[key]; !ok {
 				delete(weights, key)
 			} else {
 				weights[key] = int(math.Max(float64(weights[key]), float64(value)))
@@ -590,6 +591,45 @@ func (wg *WeightedAuthorizationModelGraph) calculateNodeWeightWithEnforceTypeStr
 	}
 	node.weights = weights
 	return nil
+}
+
+// groupEdgesByOperand merges the weights of the edges that belong to the same operand of an operator node:
+// all the direct edges come from a single direct assignment (e.g. `[user, group]`), and all the TTU edges with
+// the same tupleset and computed relation come from a single tuple to userset (one edge per parent type).
+// Any other edge is an operand by itself. An operand has a type as long as one of its edges has it.
+func groupEdgesByOperand(edges []*WeightedAuthorizationModelEdge) []map[string]int {
+	operands := make([]map[string]int, 0, len(edges))
+	groups := make(map[string]int)
+
+	for _, edge := range edges {
+		groupKey := ""
+
+		switch edge.edgeType {
+		case DirectEdge:
+			groupKey = "direct"
+		case TTUEdge:
+			_, computedRelation, _ := strings.Cut(edge.to.uniqueLabel, "#")
+			groupKey = "ttu:" + edge.tuplesetRelation + ":" + computedRelation
+		}
+
+		idx, ok := groups[groupKey]
+		if groupKey == "" || !ok {
+			idx = len(operands)
+			operands = append(operands, make(map[string]int))
+
+			if groupKey != "" {
+				groups[groupKey] = idx
+			}
+		}
+
+		for key, value := range edge.weights {
+			if current, ok := operands[idx][key]; !ok || value > current {
+				operands[idx][key] = value
+			}
+		}
+	}
+
+	return operands
 }
 
 // This is a comodity function to check if the node is the root of any tuple cycle,
